@@ -63,6 +63,8 @@ EXTRA_DOCS = [
     "@comment{a}@comment{a}",  # structurally equal blocks (same text, same line)
     "@preamble{p}@preamble{p}@comment{a}@preamble{p}",
     "% same\n@a{k1, t = {x}}\n% same\n@a{k2, t = {x}}\n% same",
+    # free text that reads like the writer's own warning line (a file written earlier, its failed block since removed)
+    "% WARNING Parsing failed for the following 3 lines.\n@a{k, t = {x}}\n% WARNING Parsing failed for the following 1 lines.\n\n@b{j}\n% WARNING Parsing failed for the following 12 lines.",
     # values ending in a backslash followed by a line break before the closing delimiter
     '@a{k, abstract = {first line \\\\\n}, u = "x\\\\\n", v = {y\\ \n}}\n@string{s = {z\\\\\n}}',
     # enclosed values whose content is the name of a defined @string, in fields with well-known keys
